@@ -1,5 +1,5 @@
 CONSTANTS MaxScript = 0 MaxN = 99 Dev = {}
 INIT FileInit
 NEXT Stutter
-INVARIANT JudgeBudget
+INVARIANT JudgeSound
 CHECK_DEADLOCK FALSE
